@@ -389,6 +389,12 @@ func (w *_node) LookupBySegment(seg datamodel.PathSegment) (datamodel.Node, erro
 func (w *_node) LookupByNode(key datamodel.Node) (datamodel.Node, error) {
 	switch w.Kind() {
 	case datamodel.Kind_Map:
+		// LookupByString takes the representation form of the key (see there). A typed key node, such as
+		// the ones this map's own iterator yields, reads as its type-level form: an enum member's name
+		// rather than its representation string, no string at all for a struct key.
+		if tk, ok := key.(schema.TypedNode); ok {
+			key = tk.Representation()
+		}
 		s, err := key.AsString()
 		if err != nil {
 			return nil, err
